@@ -34,6 +34,7 @@ type Gen struct {
 	axioms   []string
 	Verbose  bool
 	epochs   map[int]bool
+	constMaps map[*ssa.Global][]constMapEntry
 	WFAxioms bool // emit global heap well-formedness axioms
 	WFEntry  bool // emit heap well-formedness axioms for the heaps as they are at function entry
 	heapRefs map[string]bool // name@epoch consts referenced
